@@ -24,7 +24,18 @@ theorem scan_literal : ∀ (s : Str) (f : Nat) (lit : Bool) (non : Str),
       have hc := h c (by simp)
       simp [isSpecial] at hc
       have ih := scan_literal r f false (non ++ [c]) (by simp at hf; omega) (fun x hx => h x (by simp [hx]))
-      simp [scan, hc, ih]
+      have hr : r.head? ≠ some '#' := by
+        intro hh
+        cases r with
+        | nil => simp at hh
+        | cons d r' =>
+          simp at hh
+          subst hh
+          have := h '#' (by simp)
+          simp [isSpecial] at this
+      have hsf : startsField c r = false := by
+        simp [startsField, hc, hr]
+      simp [scan, hsf, hc, ih]
 
 def isField : Part → Bool
   | .non _ => false
